@@ -107,6 +107,7 @@ pub fn sweep(p: &Program, variant: usize) -> Result<(u64, u64), (String, String)
     let (_ws, mut srv) = l.start()?;
     let mut requests = 0u64;
     let mut renames = 0u64;
+    let mut opened: BTreeSet<usize> = BTreeSet::new();
     for (mi, pos, off) in l.positions() {
         let file = l.texts[mi].0.clone();
         let at = l.classify(mi, off);
@@ -256,6 +257,61 @@ pub fn sweep(p: &Program, variant: usize) -> Result<(u64, u64), (String, String)
                     return Err((
                         format!("rename | edited sources compile to a different document | {} | cursor on {on}", c02::diff_class(&msg)),
                         format!("at {here} (`{old}` -> `{new}`): {msg}"),
+                    ));
+                }
+            }
+        }
+        // A second rename of the same binder after the client applied the first one: once per
+        // declaration (cursor on the first character of its name), the edits must be the
+        // shifted occurrences, each replacing the name given by the first rename.
+        if let At::Occ(i) = at {
+            let o = &l.occs[i];
+            if o.kind == OccKind::DeclName && off == o.start && !flat.is_empty() && !old.starts_with('@') {
+                let delta = new.len() as i64 - old.len() as i64;
+                let shift = |m: usize, s: usize| -> usize {
+                    let before = flat.iter().filter(|(fm, fs, _)| *fm == m && *fs < s).count() as i64;
+                    (s as i64 + before * delta) as usize
+                };
+                let want2: BTreeSet<(usize, usize, usize)> = flat.iter().map(|(m, s, _)| (*m, shift(*m, *s), shift(*m, *s) + new.len())).collect();
+                for (m, _) in edits.iter() {
+                    if opened.insert(*m) {
+                        srv.open(&l.texts[*m].0, &l.texts[*m].1).map_err(|e| died(&e, "textDocument/didOpen", &mut srv, &on))?;
+                    }
+                    srv.change_full(&l.texts[*m].0, &new_texts[*m].1).map_err(|e| died(&e, "textDocument/didChange", &mut srv, &on))?;
+                }
+                let bstart = shift(o.module, o.start);
+                let bpos = crate::textmodel::LineTable::new(&new_texts[o.module].1).position(bstart);
+                let newer = "q9";
+                let edit2 = srv
+                    .rename(&l.texts[o.module].0, bpos.line, bpos.character, newer)
+                    .map_err(|e| died(&e, "textDocument/rename", &mut srv, &on))?;
+                requests += 1;
+                renames += 1;
+                let mut got2: BTreeSet<(usize, usize, usize)> = BTreeSet::new();
+                if let Some(ch) = edit2.get("changes").and_then(|c| c.as_object()) {
+                    for (uri, es) in ch.iter() {
+                        let f = srv.relative_path(uri);
+                        let Some(m) = l.module_index(&f) else {
+                            return Err(("rename | edit in a file outside the program".into(), format!("second rename at {here}: {uri}")));
+                        };
+                        for e in es.as_array().cloned().unwrap_or_default() {
+                            match e.get("range").and_then(|r| range_offsets(&new_texts[m].1, r)) {
+                                Some((s, e2)) => {
+                                    got2.insert((m, s, e2));
+                                }
+                                None => return Err(("rename | edit range not on exact positions".into(), format!("second rename at {here}: {e}"))),
+                            }
+                        }
+                    }
+                }
+                // put the original texts back before going on with the sweep
+                for (m, _) in edits.iter() {
+                    srv.change_full(&l.texts[*m].0, &l.texts[*m].1).map_err(|e| died(&e, "textDocument/didChange", &mut srv, &on))?;
+                }
+                if got2 != want2 {
+                    return Err((
+                        "rename | second rename after the client applied the first: edits are not the shifted occurrences".into(),
+                        format!("at {here} (`{old}` -> `{new}` -> `{newer}`): edits {got2:?}, expected {want2:?}"),
                     ));
                 }
             }
